@@ -471,6 +471,9 @@ func runC02(w *mon.Worker) {
 	for i := 0; i < w.Share(w.Scale(320, 20000)); i++ {
 		w.Case("locker-preference", nil, c02LockerPreferenceCase)
 	}
+	for i := 0; i < w.Share(w.Scale(64, 2000)); i++ {
+		w.Case("double-release", nil, c02DoubleReleaseCase)
+	}
 }
 
 // c02LockerPreferenceCase: writer preference also holds for read locks taken through the sync.Locker adapters, including
@@ -1023,4 +1026,65 @@ func mode(l *lockUnderTest, write bool) string {
 		return "write"
 	}
 	return "read"
+}
+
+// c02DoubleReleaseCase: one release function (of a TryLock or a Lock, read or write) is called by two goroutines at the
+// same moment, a few thousand times. It counts once: afterwards the lock is free for a writer and for a reader.
+func c02DoubleReleaseCase(c *mon.Case) {
+	r := c.Rng
+	var m csync.RWMutex
+	iters := 1000 + r.IntN(1500)
+	for it := 0; it < iters; it++ {
+		write := it%3 == 0
+		var rel func()
+		if it%2 == 0 {
+			rl, ok := m.TryLock(write)
+			if !ok {
+				c.Violate("waiters", "rwmutex-trylock-write-fails-on-idle-lock", "iteration %d: TryLock(write=%v) failed on a lock nobody holds (after %d concurrent double releases)", it, write, it)
+				return
+			}
+			rel = rl
+		} else {
+			rl, err := m.Lock(context.Background(), write)
+			if err != nil {
+				c.Violate("waiters", "lock-foreign-error", "Lock returned %v", err)
+				return
+			}
+			rel = rl
+		}
+		start := make(chan struct{})
+		var wg sync.WaitGroup
+		for g := 0; g < 2; g++ {
+			wg.Add(1)
+			go func() {
+				defer wg.Done()
+				<-start
+				rel()
+			}()
+		}
+		close(start)
+		wg.Wait()
+	}
+	c.Count("concurrent_double_release_rounds", int64(iters))
+	c.NonTrivial()
+	done := make(chan bool, 1)
+	go func() {
+		rel, err := m.Lock(context.Background(), true)
+		if err == nil {
+			rel()
+		}
+		done <- err == nil
+	}()
+	select {
+	case ok := <-done:
+		if !ok {
+			c.Violate("waiters", "lock-foreign-error", "final Lock(write) failed")
+		}
+	case <-time.After(3 * time.Second):
+		if mon.Quiesce(5 * time.Second) {
+			c.Violate("waiters", "rwmutex-grantable-waiter-blocked-on-free-lock", "after %d rounds in which one release function was called by two goroutines at once, nobody holds the lock, yet a writer stays blocked in a quiescent process (the holder count went wrong)", iters)
+		} else {
+			c.Inconclusive("final writer did not return")
+		}
+	}
 }
